@@ -436,7 +436,13 @@ func (w *Walker) WalkCorpus(o CorpusOpts, tops TopStartsFn, fn func(*Tree)) bool
 			t, _ := BuildCorpus(r.Repo, TreeCase{Kind: "corpus", File: f.Path, Format: fm, Mut: "intact"}, f.Data)
 			intact = append(intact, t)
 		}
-		w.EvalTrees(intact, false, o.MaxValues)
+		if len(f.Data) > 1<<20 {
+			for _, t := range intact {
+				w.EvalTrees([]*Tree{t}, false, o.MaxValues)
+			}
+		} else {
+			w.EvalTrees(intact, false, o.MaxValues)
+		}
 		var vars []*Tree
 		for _, t := range intact {
 			fn(t)
@@ -470,9 +476,18 @@ func (w *Walker) WalkCorpus(o CorpusOpts, tops TopStartsFn, fn func(*Tree)) bool
 			}
 		}
 		r.Case(int64(fi), f.Path+" (truncations)")
-		w.EvalTrees(vars, false, o.MaxValues)
-		for _, t := range vars {
-			fn(t)
+		// bounded memory: the trees of one Eval are alive together
+		chunk := 16
+		if len(f.Data) > 0 && (1<<20)/len(f.Data) < chunk {
+			chunk = max(1, (1<<20)/len(f.Data))
+		}
+		for i := 0; i < len(vars); i += chunk {
+			part := vars[i:min(i+chunk, len(vars))]
+			w.EvalTrees(part, false, o.MaxValues)
+			for _, t := range part {
+				fn(t)
+				t.Out, t.Batch = nil, nil
+			}
 		}
 		r.Count("corpus_files_done", 1)
 	}
